@@ -692,8 +692,9 @@ fn conc_props(tier: &str, seed: u64, out: &str) {
         ("loop+par", vec!["connect 0 0 5".into(), "connect 0 1 7".into(), "connect 0 1 9".into()]),
     ];
     let muts = ["c.0.1.1", "c.1.0.2", "t.0.1.3", "t.1.0.4", "d.0.1", "d.1.0", "x.0", "x.1"];
-    let reads_di = ["q.0.1", "g.0", "o.1", "i.0", "i.1", "n.1", "r.1", "l.0", "f.1.0", "F.0.1"];
-    let reads_un = ["q.0.1", "g.0", "o.1", "i.0", "i.1", "F.1.0"];
+    // readers: queries, whole iterations, and traversals (B/D = bfs/dfs search, T = transposed bfs, P = preorder)
+    let reads_di = ["q.0.1", "g.0", "o.1", "i.0", "i.1", "n.1", "r.1", "l.0", "f.1.0", "F.0.1", "B.0.1", "D.1.0", "T.1.0", "P.0"];
+    let reads_un = ["q.0.1", "g.0", "o.1", "i.0", "i.1", "F.1.0", "B.0.1", "D.1.0", "P.1"];
     let build = |reads: &[&str]| -> Vec<(String, Vec<String>, String)> {
     let mut scenarios: Vec<(String, Vec<String>, String)> = vec![];
     for (iname, init) in inits.iter().take(if quick { 3 } else { 4 }) {
